@@ -53,9 +53,9 @@ pub fn sqs(names: &str) -> Vec<usize> {
     names.split_whitespace().map(sq).collect()
 }
 
-type GameKey = (Raw, bool, u8, u32, bool, Raw, Vec<(Raw, bool, u16)>, Vec<u64>, u64);
+pub type GameKey = (Raw, bool, u8, u32, bool, Raw, Vec<(Raw, bool, u16)>, Vec<u64>, u64);
 
-fn game_key(n: &Node) -> GameKey {
+pub fn game_key(n: &Node) -> GameKey {
     let pp = n.gs.as_play_phase();
     let mut occ: Vec<(Raw, bool, u16)> = Vec::new();
     for (r, s) in n.hist.iter() {
